@@ -51,6 +51,10 @@ CLAIMS.update({
     "C07": ("def-use obligations along the diagnostic pipeline, CFG path check per constructed diagnostic, constant folding of severities, write-effect summary of get_diagnostics", "Decides the error discipline of the diagnostic pipeline: every function that builds diagnostics is reachable from the aggregator, each per-scope checker's result and each callee-returned diagnostic is added, scope list and none-scope are both visited, end errors and parse errors are returned, both parts are merged and built, the list is published unchanged under the document's URI on every non-error path; no constructed diagnostic can reach the end of its function unappended; severities are 1..3; computing diagnostics writes no persistent state. Not decided: silence on all valid programs, presence at every seeding position (what the checkers find)."),
 })
 
+CLAIMS.update({
+    "C04": ("table agreement between statement readers, parser dispatch, END patterns and kind tables (regex trees + AST), line-base dimension analysis", "Decides the tables END matching rests on: every construct is closed by a pattern that shares its opener's keyword and whose keywords END_WORD lists; non-unit constructs require a container; the set of tags produced by the statement readers equals the set the parser dispatches on; both symbol-kind tables have an explicit arm for every entity type and stay within the SymbolKinds the protocol offers for that notion; 1-based entity lines reach symbol ranges through exactly one `- 1`; the workspace query is case-insensitive on both operands, sorted by name and skips entries without a file. Not decided: END matching on arbitrary nestings, containers, exact start/end lines."),
+})
+
 NA_REASON = "check under construction in this round (rules designed in DESIGN.md section 3, not yet implemented); will move to checks once its rules run"
 
 
